@@ -117,16 +117,39 @@ def slot_bytes(rng, slot):
     pfx = 0xDD if g == 'DDCB' else 0xFD
     return [pfx, 0xCB, d, op]
 
-def gen_wstep(rng, tier, index, replicas=None, machines=('48K', '48K', '128K', '128K', '+2')):
+ALIGN_TARGETS = (0x3FFE, 0x3FFF, 0x4000, 0x4001, 0xFFFF, 0xFFFE, 0x0000, 0x0001, 0x7FFF, 0xBFFF, 0xC000)
+
+def gen_wstep(rng, tier, index, replicas=None, machines=('48K', '48K', '128K', '128K', '+2'), align=False):
     slot = index % N_SLOTS
     machine = rng.choice(machines)
     frame = 69888 if machine == '48K' else 70908
     mem = gen_prog.gen_mem(rng, machine, equal_banks=rng.random() < 0.1)
     pc = gen_pc(rng)
     code = slot_bytes(rng, slot)
+    g, op = GROUPS[slot // 256], slot % 256
+    target = None
+    if align:
+        # every pointer the instruction could use is aimed at one boundary address: (nn), BC, DE, HL, IX+d, IY+d and SP
+        target = rng.choice(ALIGN_TARGETS)
+        lo, hi = target & 0xFF, target >> 8
+        if g == '':
+            code[1:3] = [lo, hi]
+        elif g == 'ED':
+            code[2:4] = [lo, hi]
+        elif g in ('DD', 'FD') and code[1] != 0xCB:
+            code[2:4] = [lo, hi]
+        while pc <= target < pc + 6 or pc <= ((target + 1) & 0xFFFF) < pc + 6:
+            pc = gen_pc(rng)
     mem['patches'].append([pc, bytes(code).hex()])
     regs = gen_regs30(rng, machine, pc)
-    g, op = GROUPS[slot // 256], slot % 256
+    if target is not None:
+        d = code[2] if g in ('DD', 'FD', 'DDCB', 'FDCB') else 0
+        d = d - 256 if d > 127 else d
+        for hi_ in (2, 4, 6):
+            regs[hi_], regs[hi_ + 1] = target >> 8, target & 0xFF
+        ix = (target - d) & 0xFFFF
+        regs[8], regs[9], regs[10], regs[11] = ix >> 8, ix & 0xFF, ix >> 8, ix & 0xFF
+        regs[12] = (target + rng.choice((0, 1, 2, 2))) & 0xFFFF
     steps = 1
     if g == 'ED' and 0xB0 <= op <= 0xBB and op & 7 < 4:
         steps = rng.choice((1, 2, 3, 4))
